@@ -2,6 +2,7 @@
 from .. import mir
 from ..term import Terms, show, alts, match, V, C, TRY, ok_payloads, is_call
 from ..rules_dep import run_dep
+from .c08 import pipeline as civil_pipeline
 
 SELF = ("param", 1, "self")
 
@@ -16,6 +17,9 @@ def run(ctx, rep):
     run_dep(ctx, rep, "C06")
     prog = ctx.prog("Q")
     rep.notes.append("Does not decide that each step computes the right value, nor the 23/25-hour-day behaviour that emerges.")
+    # "months/years clamp the day of month": the calendar step of zoned addition is Date::checked_add_span, whose own
+    # pipeline (one clamp against the target month, after years and months were combined) is rule CIVIL-PIPELINE
+    civil_pipeline(rep, prog, rule="CIVIL-PIPELINE")
     rep.rule("PIPELINE", "Zoned::checked_add_span is, on the non-shortcut Ok path, exactly: c = span.only_calendar(); "
                          "dt = self.datetime().checked_add(c)?; ts = tz.to_ambiguous_timestamp(dt).compatible()?; "
                          "ts' = ts.checked_add(span.only_time())?; Ok(ts'.to_zoned(tz.clone())) with tz = self.time_zone(); the shortcut "
